@@ -482,6 +482,6 @@ def run(ctx):
 
 META = {
     'technique': 'Rocq proof by induction over arbitrary join histories (invariant: class label equality <-> equivalence closure) + exact correspondence of numdofs/patch_to_global_idx with the implementation',
-    'level_text': 'Theorems (Coq, unbounded): for every patch count, sizes and every list of dof identifications / join_boundaries calls in any order with repetitions and flips, the model assigns equal global indices iff the dofs are connected by a chain of identifications (glue_is_closure, glue_is_closure_boundaries, join_order_irrelevant), the numbering maps into and onto range(numdofs) (glob_in_range, glob_gapfree; for histories of join_boundaries calls on valid faces without any hypothesis on the identifications: boundary_joins_pair_existing_dofs, glob_gapfree_boundaries), patch_to_global has one unit entry per local dof and P^T P = I iff no two local dofs of the patch are identified (p2g_*). The model is tied to /repo by running the same ~900 (thorough ~10^4) join histories through Multipatch and comparing numdofs and every patch_to_global_idx array exactly; the closure property is also evaluated directly on the implementation with a union-find oracle; a geometric tie (conforming box decompositions with reversed parametrisations, rings of annulus sectors where two patches share two faces) checks detect_interfaces against the coinciding faces, gluing by physical location, assemble_system consistency and Multipatch.compute_dirichlet_bcs.',
+    'level_text': 'Theorems (Coq, unbounded): for every patch count, sizes and every list of dof identifications / join_boundaries calls in any order with repetitions and flips, the model assigns equal global indices iff the dofs are connected by a chain of identifications (glue_is_closure, glue_is_closure_boundaries, join_order_irrelevant), the numbering maps into and onto range(numdofs) (glob_in_range, glob_gapfree; for histories of join_boundaries calls on valid faces without any hypothesis on the identifications: boundary_joins_pair_existing_dofs, glob_gapfree_boundaries), patch_to_global has one unit entry per local dof and P^T P = I iff no two local dofs of the patch are identified (p2g_*); the accumulation loop of assemble_system yields the sum of the patch bilinear forms / functionals of the restrictions u o glob_p (assemble_system_bilinear_form, assemble_system_rhs_functional, p2g_congruence_entry). The model is tied to /repo by running the same ~900 (thorough ~10^4) join histories through Multipatch and comparing numdofs and every patch_to_global_idx array exactly; the closure property is also evaluated directly on the implementation with a union-find oracle; a geometric tie (conforming box decompositions with reversed parametrisations, rings of annulus sectors where two patches share two faces) checks detect_interfaces against the coinciding faces, gluing by physical location, assemble_system consistency and Multipatch.compute_dirichlet_bcs.',
     'level_note': 'Trusted: Coq kernel + vm_compute; hand transcription of Multipatch.join_dofs/finalize/patch_to_global_idx and slice_indices into Gallina, validated by the exact correspondence run; harness generators. Not modelled: detect_interfaces geometric matching (np.allclose), assemble_system numerics (rests on C01/C09).',
 }
